@@ -359,6 +359,8 @@ def session_check(ctx, module, theorems, prop, rotations=True, extra=None):
     report_corr(ctx, 'session_ops', lines, impl, model, mism, prop_fail)
     if inject_stream(ctx, prop):
         prop_fail.add('inject')
+    if getattr(ctx, 'extra_finder', None) and ctx.extra_finder(ctx):
+        prop_fail.add('race')
     finish_proof(ctx, ok, bool(prop_fail))
     ctx.coverage.update({'evaluations': len(lines), 'distinct_nontrivial': len(nontrivial),
                          'traces_validated_against_impl': len(lines) - len(mism), 'rule': SESSION_RULE +
@@ -543,7 +545,66 @@ def check_c02(ctx):
     ctx.samples = [lines[0][:300], rlines[0][:400]]
     ctx.assumptions.append('C++11 release/acquire as the view-based operational semantics (RC11 without load buffering); interleaving at the granularity of API calls plus arbitrary reads-from')
     return ctx.finish()
-def check_c03(ctx): return session_check(ctx, 'BinlogVerif.Props.C03', C03_THEOREMS, 'C03', extra=['BinlogVerif.Generated.Session'])
+def race_stream(ctx):
+    """C03 with real threads on the real macros (harness/race_harness.cpp): while consume is inside a write call, producer
+    threads execute log statements - several of them the SAME statement for the first time; each thread is started when the
+    previous one has finished or blocks on the session mutex.  Monitor: in what consume wrote, every event is preceded by
+    the event source with its id and by a clock sync.  A failing-schedule finder; the claim is the theorem."""
+    from concurrent.futures import ThreadPoolExecutor
+    exe = build_harness('race_harness', link_repo=False)
+    rng = random.Random(ctx.seed * 1000003 + 33)
+    n = cases_count(ctx, 48, 600)
+    lines = []
+    for i in range(n):
+        nth = rng.choice([2, 2, 3, 4])
+        s0 = rng.randrange(6)
+        sites = [s0 if rng.random() < 0.75 else rng.randrange(6) for _ in range(nth)]
+        pre = [rng.randrange(6) for _ in range(rng.choice([0, 0, 1, 2]))]
+        pre = [x for x in pre if x != s0]
+        hook = rng.choice([0, 0, 1, 10]) if pre else 0
+        lines.append('race %d %d %s %s' % (hook, nth, ' '.join(map(str, sites)), ' '.join(map(str, pre))))
+    def one(l):
+        rc, out, err = run_lines(exe, [l], timeout=120)
+        return out[0] if out else '<died: %s>' % ' '.join(err[-300:].split())
+    with ThreadPoolExecutor(max_workers=8) as ex:
+        outs = list(ex.map(one, lines))
+    fails, hooked = 0, 0
+    for l, o in zip(lines, outs):
+        kv = parse_kv(o)
+        what = None
+        if o.startswith('<died'):
+            what = 'the real code crashed under the schedule: ' + o[:300]
+        else:
+            hooked += 1 if kv.get('hooked') == '1' else 0
+            seq = [x for x in (kv.get('zero', '') + ',' + kv.get('first', '') + ',' + kv.get('second', '')).split(',') if x]
+            defined, cs = set(), False
+            for x in seq:
+                if x == 'C':
+                    cs = True
+                elif x[0] == 'S':
+                    defined.add(x[1:])
+                elif x[0] == 'E':
+                    if x[1:] not in defined:
+                        what = 'an event with source id %s is written before the event source with that id (entries: %s)' % (x[1:], ','.join(seq)[:300])
+                        break
+                    if not cs:
+                        what = 'an event is written before any clock sync'
+                        break
+        if what:
+            fails += 1
+            if fails <= 3:
+                ctx.violation('c03-race-%s' % hashlib.sha256(l.encode()).hexdigest()[:10],
+                              'C03: with threads executing log statements (the same statement for the first time) while consume runs: ' + what,
+                              {'kind': 'schedule', 'input_line': l, 'impl': o,
+                               'how_to_read': 'race <write call of consume at which the threads start> <n threads> <site per thread> [statements executed before]; '
+                                              'each thread starts when the previous one finished or blocks on the session mutex (harness/race_harness.cpp)'})
+    ctx.streams['race'] = {'cases': len(lines), 'hooked': hooked, 'property_failures': fails}
+    return fails
+
+
+def check_c03(ctx):
+    ctx.extra_finder = race_stream
+    return session_check(ctx, 'BinlogVerif.Props.C03', C03_THEOREMS, 'C03', extra=['BinlogVerif.Generated.Session'])
 def check_c13(ctx): return session_check(ctx, 'BinlogVerif.Props.C13', C13_THEOREMS, 'C13', extra=['BinlogVerif.Generated.Session'])
 
 
@@ -572,6 +633,8 @@ def check_c19(ctx):
         for _ in range(rng.choice([5, 20, 60])):
             if rng.random() < 0.2:
                 toks += ['min', str(rng.randrange(2)), str(rng.choice([32, 64, 128, 256, 512, 1024, 32768, 0, 33]))]
+            elif rng.random() < 0.03:
+                toks += ['reseat']
             else:
                 toks += ['stmt', str(rng.randrange(48))]
         lines.append(' '.join(toks))
@@ -588,6 +651,7 @@ def check_c19(ctx):
         # property monitor on the implementation: python replay of the documented semantics
         toks = l.split(' ')[1:]
         mins = {0: 32, 1: 32}
+        reseated = False
         seen = set()
         segs = impl[i].split(';')
         j, k = 0, 0
@@ -595,8 +659,12 @@ def check_c19(ctx):
         while j < len(toks) and k < len(segs):
             if toks[j] == 'min':
                 mins[int(toks[j + 1])] = int(toks[j + 2]); j += 3
+            elif toks[j] == 'reseat':
+                reseated = True; j += 1
             else:
-                st = sites[int(toks[j + 1])]; j += 2
+                st = dict(sites[int(toks[j + 1])]); j += 2
+                if reseated:
+                    st['session'] = 1      # the basic families log through the thread's default writer, now of session 1
                 kv = parse_kv(segs[k])
                 enabled = st['severity'] >= mins[st['session']]
                 want = (1, 0 if st['site'] in seen else 1, st['nargs'] * (1 if st['site'] in seen else 2)) if enabled else (0, 0, 0)
@@ -621,7 +689,8 @@ def check_c19(ctx):
     finish_proof(ctx, ok, bool(prop_fail))
     ctx.coverage.update({'evaluations': n, 'distinct_nontrivial': len(nontrivial), 'traces_validated_against_impl': n - len(mism),
                          'rule': 'histories of setMinSeverity (on the default session and on an explicit session; values incl. no_logs, 0, '
-                                 'non-enumerator) and log statements over 48 call sites = 24 macros x {0, 2 effectful arguments}; after each '
+                                 'non-enumerator), of re-seating the thread\'s default writer onto the explicit session, '
+                                 'and log statements over 48 call sites = 24 macros x {0, 2 effectful arguments}; after each '
                                  'statement both sessions are consumed and events, sources and argument evaluations are counted; '
                                  'non-trivial = history with both enabled and disabled statements; distinct by history'})
     ctx.samples = [lines[0][:300]]
